@@ -159,7 +159,7 @@ def _menu_events(L, menu):
                 A(Event('overwrite', (b, p), f"s.overwrite({src}, {p})", dev or dv_pos(p)))
         for i in (pos_all if full else [0, -1, L]):
             A(Event('delitem', (i,), f"del s[{i}]", not 0 < i < L - 1))
-        sl = [None, 1, -1, L // 2] if full else [None, 1]
+        sl = [None, 1, -1, L // 2, L + 2, -L - 1] if full else [None, 1]     # incl. bounds that overrun either end
         steps = [None, 1, -1, 2, -2, 0] if full else [None, 2, -1]
         for a in sl:
             for b in sl:
